@@ -84,14 +84,21 @@ macro_rules! for_prefix {
     }};
 }
 
+pub mod c08;
+pub mod c10;
+pub mod c11;
 pub mod c15;
 pub mod c16;
+pub mod c20;
+pub mod c23;
 pub mod c26;
 pub mod c27;
 #[cfg(feature = "sp")]
 pub mod pg;
 #[cfg(feature = "sp")]
 pub mod c28;
+#[cfg(feature = "sp")]
+pub mod c28t;
 #[cfg(feature = "sp")]
 pub mod c30;
 pub mod c31;
